@@ -272,6 +272,7 @@ def scenario(ctx, R, rng, content, B, tmo_opt, silence_after, ending, tick_gap):
 
 
 def run(ctx, build):
+    lib.corr_modules(ctx, SPEC, ['registry_corr'])     # the concurrent registry: real TFTPSubServers under a scheduler shim vs the model
     R = ctx.try_runner('Tftp')
     rng = ctx.rng
     n = 6000 if ctx.thorough else 50
